@@ -61,10 +61,15 @@ static int parseConvertElement(MPT_INTERFACE(convertable) *conv, MPT_TYPE(type) 
 	}
 	if (type == MPT_type_toVector('c')) {
 		while (isspace(*txt)) ++txt;
-		while (!isspace(*txt)) ++txt;
+		while (*txt && !isspace(*txt)) ++txt;
+		/* terminate consumed substring */
 		it->restore = (char *) txt;
-		it->save = *txt;
-		*it->restore = 0;
+		if (it->restore >= it->end) {
+			it->restore = 0;
+		} else {
+			it->save = *txt;
+			*it->restore = 0;
+		}
 		if (dest) {
 			struct iovec *vec = dest;
 			vec->iov_base = it->val;
